@@ -25,6 +25,11 @@ import TinkVerif.Props.GlueTie.FactoryDaead
 import TinkVerif.Props.GlueTie.FactoryMac
 import TinkVerif.Props.GlueTie.FactoryVerify
 import TinkVerif.Props.GlueTie.FactoryHybrid
+import TinkVerif.Props.GlueTie.Jwt
+import TinkVerif.Props.GlueTie.IdReq
+import TinkVerif.Props.GlueTie.StreamNew
+import TinkVerif.Props.GlueTie.HkdfPrf
+import TinkVerif.Props.GlueTie.HmacNew
 /-
   GlueTie: the small byte-level glue functions of tink-go (output prefixes, segment nonces, length blocks,
   counter / tag masks, AIV, CMAC doubling and padding, HPKE labels) are REGENERATED from /repo's current source
@@ -69,6 +74,13 @@ import TinkVerif.Props.GlueTie.FactoryHybrid
     Props.GlueTie.FactoryMac        Gen/GlueFactoryMac    (C04 C05)           Model/Wrap `macAccept` (whole wrappedMAC.VerifyMAC / tryVerifyMAC / ComputeMAC)
     Props.GlueTie.FactoryVerify     Gen/GlueFactoryVerify (C03 C05)           Model/Wrap `accept` (whole wrappedVerifier.Verify)
     Props.GlueTie.FactoryHybrid     Gen/GlueFactoryHybrid (C05 C06)           Model/Wrap `candidates`, `accept` (whole wrappedHybridDecrypt.Decrypt)
+    Props.GlueTie.Jwt               Gen/GlueJwt      (C05 C09)                Model/Jwt `validate`, `validateHeader` (whole Validator.Validate, validateTimestamps with the
+                                                                              clock as a parameter, validateTypeHeader/Issuer/Audiences, validateFieldPresence, validateHeader, validateKIDInHeader)
+    Props.GlueTie.IdReq             Gen/GlueIdReq    (C11 C20)                Model/Manager `fromHandle`; KeySerialization / FallbackProtoKey IDRequirement, NewKeySerialization,
+                                                                              NewManagerFromHandle, the id-requirement statements of keysetToEntries
+    Props.GlueTie.StreamNew         Gen/GlueStreamNew (C07)                   streamingaead/subtle NewAESGCMHKDF / NewAESCTRHMAC: parameter checks and derived sizes (closed form)
+    Props.GlueTie.HkdfPrf           Gen/GlueHkdfPrf  (C15)                    prf/subtle NewHKDFPRF / ValidateHKDFPRFParams (key and salt stored as given)
+    Props.GlueTie.HmacNew           Gen/GlueHmacNew  (C01 C04)                internal/mac/hmac New / ValidateHMACParams (key stored as given)
 
   This file only collects them (and repeats the axiom audit for every tie theorem).
 -/
